@@ -53,6 +53,14 @@ class C14(Prop):
                 if g.startswith("violation:"):
                     out.append(viol("a save killed by SIGKILL was neither complete nor absent: " + g, cops, cgo, upto=i))
                     break
+                if op.startswith("ps.delsave"):
+                    r_ = kv(g)
+                    if r_.get("bad", "0") != "0" or r_.get("failed", "0") != "0" or not g.startswith("ok"):
+                        out.append(viol(f"the deletion of the database's only entry and the save of another fan's entry were waiting for the database "
+                                        f"at the same time: {r_.get('bad')} saved entries could not be loaded afterwards although the save reported success "
+                                        f"({r_.get('failed')} operations failed)", cops, cgo, upto=i))
+                        break
+                    continue
                 if op.startswith("ps.parallel"):
                     r_ = kv(g)
                     if r_.get("bad", "0") != "0" or r_.get("failed", "0") != "0":
